@@ -70,6 +70,10 @@ THEOREMS = [
              "(WithMap s null)"},
     {"name": "C20_with_key_in_refuted", "strength": "R",
      "text": "witness: `x, in in <% ctx().xs %>` (a key called in) is cut at the wrong ` in `"},
+    {"name": "C20_with_expr_in_refuted", "strength": "R",
+     "text": "witness: the items string `<% ctx().xs.where($ in list(1, 2)) %>` (one whole expression, no item key) "
+             "is cut at the ` in ` inside the expression; on the real engine inspect() passes and the task fails with "
+             "TypeError (both notations of with alike)"},
     {"name": "C20_action / C20_action_plain", "strength": "F",
      "text": "split_action_res (name ++ blank ++ render l) = ActInline name (dict of the denotations) for names without "
              "blank and without `=`, l non-empty of the class above; no inline pair => the action is left alone"},
@@ -373,9 +377,15 @@ def g_value(rng, hostile=False):
     if r < 0.26:
         return rng.choice(["true", "false", "True", "FALSE", "tRuE", "null"] + (["Null", "NULL", "trueish", "nullx", "none"] if hostile else [])), "literal"
     if r < 0.44:
-        return '"%s"' % g_text(rng, '"', hostile or rng.random() < 0.5), "dq"
+        body = g_text(rng, '"', hostile or rng.random() < 0.5)
+        if hostile and rng.random() < 0.3:      # the ends are where the quote stripping bites
+            body = rng.choice(["", "'", " ", "{"]) + body + rng.choice(["'", "'\n", "\n", " ", "}", "'\n\n", "' "])
+        return '"%s"' % body, "dq"
     if r < 0.58:
-        return "'%s'" % g_text(rng, "'", hostile or rng.random() < 0.5), "sq"
+        body = g_text(rng, "'", hostile or rng.random() < 0.5)
+        if hostile and rng.random() < 0.3:
+            body = rng.choice(["", '"', " ", "{"]) + body + rng.choice(['"', '"\n', "\n", " ", "}"])
+        return "'%s'" % body, "sq"
     if r < 0.68:
         q = rng.choice("'\"")
         t = g_json_text(rng, top={rng.choice(["a", "k"]): g_json_value(rng, 1)} if rng.random() < 0.7 else None)
